@@ -434,6 +434,11 @@ RULES = [
     Rule("C07.L4", rule_L4, floor=5, doc="dataset-level tokenization (siblings)"),
     Rule("C07.L5", rule_L5, floor=6, doc="parser / writer coordinate grammar and conversion loops"),
     Rule("C07.L6", rule_L6, floor=6, doc="parsing pipeline"),
+    Rule("C07.L7", lambda ctx: (__import__("sa.rules.c13", fromlist=["x"]).judge_is_connection(
+        ctx, "is_connection reads connection_list[direction, lesser endpoint] of each edge (C13.V1 re-judged: the modular adjacency list marks an edge as "
+             "connection / wall through it, and must agree with the legacy list)"),
+        __import__("sa.rules.c06", fromlist=["x"]).rule_T4(ctx)), floor=2,
+         doc="'legacy and modular tokens agree' rests on the edge lookup and the connector maps of the modular adjacency tokenizers: C13.V1 (is_connection) and C06.T4 re-judged"),
 ]
 
 from sa import exits as _exits  # noqa: E402
